@@ -166,7 +166,23 @@ fn dup_is_global_flag(b: &[u8]) -> bool {
     false
 }
 
+/// the text entry point must agree with the byte entry point: from_str(base64(bs)) accepts iff deserialize(bs) does, with the same value
+fn fromstr_disagrees(b: &[u8], by_bytes: &Result<Pset, EncErr>) -> Option<String> {
+    use elements::bitcoin::base64::prelude::{Engine as _, BASE64_STANDARD};
+    let by_text = Pset::from_str(&BASE64_STANDARD.encode(b));
+    match (by_bytes, by_text) {
+        (Ok(p), Ok(q)) => if *p != q { Some("fromstr-vs-deserialize|from_str(base64(bs)) and deserialize(bs) accept but return different PSETs".into()) } else { None },
+        (Err(_), Err(_)) => None,
+        (Err(_), Ok(_)) => Some("fromstr-vs-deserialize|from_str(base64(bs)) accepts a byte string that deserialize(bs) rejects (e.g. trailing data after the last map)".into()),
+        (Ok(_), Err(_)) => Some("fromstr-vs-deserialize|from_str(base64(bs)) rejects a byte string that deserialize(bs) accepts".into()),
+    }
+}
 fn eval_bin(mode: &str, b: &[u8]) -> Out {
+    let mut o = eval_bin0(mode, b);
+    if o.pred_fail.is_none() { o.pred_fail = fromstr_disagrees(b, &deserialize::<Pset>(b)); }
+    o
+}
+fn eval_bin0(mode: &str, b: &[u8]) -> Out {
     let must_reject = mode.starts_with("rej");
     match deserialize::<Pset>(b) {
         Err(e) => {
@@ -195,6 +211,7 @@ fn eval_bin(mode: &str, b: &[u8]) -> Out {
                     "rejdup" => if dup_is_global_flag(b) { "F17-dup-elements-modifiable|a duplicated global PSBT_ELEMENTS_GLOBAL_TX_MODIFIABLE pair is accepted (assigned without an is_none() test); the last value wins".to_string() } else { "dup-accepted|an encoding with a duplicated key is accepted".to_string() },
                     "rejmissing" => "missing-accepted|an encoding without a mandatory field is accepted".to_string(),
                     "rejlen" => "F18-commitment-length-unchecked|a commitment / generator value whose length is not 33 bytes is accepted (repaired by 838e50c: returned)".to_string(),
+                    "rejtrail" => "trailing-accepted|a valid encoding followed by extra bytes is accepted".to_string(),
                     "rejcount" => "count-accepted|an encoding whose declared counts differ from the number of maps is accepted".to_string(),
                     _ => "preimage-accepted|an encoding with an invalid hash preimage is accepted".to_string(),
                 });
@@ -204,6 +221,22 @@ fn eval_bin(mode: &str, b: &[u8]) -> Out {
     }
 }
 fn eval_text(s: &str) -> Out {
+    use elements::bitcoin::base64::prelude::{Engine as _, BASE64_STANDARD};
+    let mut o = eval_text0(s);
+    if o.pred_fail.is_none() {
+        if let Ok(bytes) = BASE64_STANDARD.decode(s) {
+            let by_bytes = deserialize::<Pset>(&bytes);
+            match (Pset::from_str(s), by_bytes) {
+                (Ok(p), Ok(q)) => if p != q { o.pred_fail = Some("fromstr-vs-deserialize|from_str(s) and deserialize(base64_decode(s)) return different PSETs".into()); },
+                (Err(_), Err(_)) => {}
+                (Ok(_), Err(_)) => o.pred_fail = Some("fromstr-vs-deserialize|from_str(s) accepts text whose bytes deserialize rejects (e.g. trailing data after the last map)".into()),
+                (Err(_), Ok(_)) => o.pred_fail = Some("fromstr-vs-deserialize|from_str(s) rejects text whose bytes deserialize accepts".into()),
+            }
+        }
+    }
+    o
+}
+fn eval_text0(s: &str) -> Out {
     use elements::bitcoin::base64::prelude::{Engine as _, BASE64_STANDARD};
     match Pset::from_str(s) {
         Err(pset::ParseError::Base64(_)) => Out::ok("err b64".into()),
@@ -636,6 +669,16 @@ pub fn gen(rng: &mut ChaCha20Rng, n: usize, thorough: bool) -> Vec<Case> {
     // F18 probes: a valid generator / commitment followed by one more byte
     for _ in 0..2 { let mut g = rgenerator(rng).serialize().to_vec(); g.push(rng.gen()); out.push(Case { text: format!("{} {}", head("shortcomm", &g), hex(&g)), tags: vec!["src:targeted-commitment-length".into(), "mode:shortcomm".into()], nontrivial: true });
                     let mut c = rcommitment(rng).serialize().to_vec(); c.push(rng.gen()); out.push(Case { text: format!("{} {}", head("shortcomm", &c), hex(&c)), tags: vec!["src:targeted-commitment-length".into(), "mode:shortcomm".into()], nontrivial: true }); }
+    // trailing data: a valid encoding followed by 1..4 bytes (zero, non-zero, a further 0x00 separator, the start of another map),
+    // through deserialize and through from_str; must be rejected by both
+    for k in 0..(n / 8).max(12) {
+        let b = valid[rng.gen_range(0..valid.len())].clone(); if b.len() > 4_000 { continue; }
+        let extra: Vec<u8> = match k % 6 { 0 => vec![0], 1 => vec![0, 0], 2 => vec![rng.gen_range(1..=255)], 3 => vec![1, 0x77, 0, 0], 4 => rbytes(rng, 3), _ => { let l = rng.gen_range(1..5); rbytes(rng, l) } };
+        let mut m = b.clone(); m.extend_from_slice(&extra);
+        let tags = vec!["src:targeted-trailing-data".to_string(), format!("extra:{}", extra.len())];
+        out.push(mk("rejtrail", &m, tags.clone(), false));
+        out.push(Case { text: format!("{} {}", head("text", &m), BASE64_STANDARD.encode(&m)), tags: { let mut t = tags; t.push("mode:text".into()); t }, nontrivial: false });
+    }
     // byte-level mutations and truncations
     for _ in 0..n / 2 {
         let b = valid[rng.gen_range(0..valid.len())].clone();
